@@ -17,7 +17,7 @@ from ..core import outcome
 
 RULE = ("one case = (program of array operations from a small ragged list = TLC state of MC_C07, encoding) replayed on real encoded arrays; "
         "non-trivial = the program has a selection or assignment acting on the result of an earlier selection/copy; distinct by (program, encoding)")
-ALL_OPS = ["rows", "cols", "concat", "copy", "row", "col", "eq", "streq", "decode", "ravel", "setrow", "setmask"]
+ALL_OPS = ["rows", "cols", "concat", "copy", "row", "col", "eq", "streq", "streq2", "decode", "ravel", "setrow", "setmask"]
 
 
 def _encodings():
@@ -91,6 +91,8 @@ def check_vector(v):
                     return [[bool(x) for x in row] for row in (t == letters[op["x"]]).tolist()]
                 if name == "streq":
                     return [bool(x) for x in bnp.str_equal(t, txt(op["s"])).tolist()]
+                if name == "streq2":
+                    return [bool(x) for x in np.atleast_1d(bnp.str_equal(t, pool[op["u"] - 1])).tolist()]
                 if name == "decode":
                     from bionumpy.string_array import string_array
                     return [[str(x) for x in t.encoding.decode(t).tolist()], [str(x) for x in string_array(t).tolist()]]
